@@ -8,7 +8,7 @@
    seg_wf file base ph      : a PT_LOAD header is well-formed (inside the file, filesz <= memsz, no u64 wrap)
    rebase_ok e B            : every address the object mentions, plus B, is still a u64 *)
 From Coq Require Import ZArith List String.
-From Falcon Require Import Base.Res Mem.Backing Mem.BackingSpec Mem.BackingProofs Elf.ElfModel Elf.ElfProofs.
+From Falcon Require Import Base.Res Mem.Backing Mem.BackingSpec Mem.BackingProofs Mem.BackingShift Elf.ElfModel Elf.ElfProofs Elf.ElfLink.
 Import ListNotations.
 Local Open Scope Z_scope.
 
@@ -42,6 +42,14 @@ Theorem rebase_uniform_memory : forall (e : elfd) (base : Z),
   exists m0 mb, memory e 0 = Ok m0 /\ memory e base = Ok mb /\ forall x, abs mb (x + base) = abs m0 x.
 Proof. exact memory_rebase_thm. Qed.
 Print Assumptions rebase_uniform_memory.
+
+(* ... and on the stored sections themselves: sections() at base B is sections() at base 0 with every key B higher
+   (same cuts, same data, same permissions) *)
+Theorem rebase_uniform_sections : forall (e : elfd) (B : Z),
+  Forall (seg_wf (e_file e) B) (e_phdrs e) -> Forall (seg_wf (e_file e) 0) (e_phdrs e) ->
+  exists m0, memory e 0 = Ok m0 /\ memory e B = Ok (kshift B m0).
+Proof. exact sections_rebase_thm. Qed.
+Print Assumptions rebase_uniform_sections.
 
 Theorem rebase_uniform_entries : forall (e : elfd) (B : Z), rebase_ok e B ->
   exists l0, function_entries e 0 = Ok l0 /\ function_entries e B = Ok (map (shift1 B) l0).
@@ -80,6 +88,21 @@ Theorem reloc_once_partial : forall (main lib : elfd) (ex1 ex2 : list symbol) (n
   (exists s, In s (e_dynsyms lib) /\ n = s_name s /\ v = s_value s + LIB_BASE).
 Proof. exact link_symbols_once_thm. Qed.
 Print Assumptions reloc_once_partial.
+
+(* [U] reloc_once, the memory side: the modelled x86 relocation pass (relocations_x86 over R_386_32 / GLOB_DAT /
+   JMP_SLOT entries whose 4-byte slots are pairwise disjoint, each inside one stored section, each symbol
+   registered) succeeds; afterwards every slot reads the registered address of its symbol mod 2^32, the section
+   layout is unchanged and no other cell is altered.  With reloc_once_partial (the registered address is
+   st_value + the base of the defining object, once) this is reloc_once for the two-object link. *)
+Theorem reloc_once : forall (B : Z) (dynsyms : list sym) (st : symtab) (rs : list rel) (m : sections Z),
+  wf 0 m -> 0 <= B -> Forall symbolic rs -> ForallOrdPairs apart rs ->
+  Forall (fun r => 0 <= r_offset r /\ slot_ok m (r_offset r + B)) rs ->
+  Forall (fun r => exists v, resolves dynsyms st r v) rs ->
+  exists m', relocs_x86 B dynsyms st rs m = Ok m' /\ wf 0 m' /\ shape m' = shape m /\
+    (forall r v, In r rs -> resolves dynsyms st r v -> read32 false (abs m') (r_offset r + B) = Some (v mod 4294967296)) /\
+    (forall y, (forall r, In r rs -> ~ (r_offset r + B <= y < r_offset r + B + 4)) -> abs m' y = abs m y).
+Proof. exact relocs_x86_once. Qed.
+Print Assumptions reloc_once.
 
 (* the hypotheses are satisfiable: a two-segment object with zero fill, loaded at 0x1000 *)
 Example image_example :
